@@ -29,6 +29,7 @@
    is a no-op.  The configuration says which code is modelled: [mkCfg true true] is /repo after
    the two C18 repairs, [mkCfg false _] the unlocked counter, [mkCfg _ false] the old loop. *)
 From PyDcop Require Import Base.
+From PyDcop Require M_Messaging.
 
 Record cfg := mkCfg { c_lock : bool; c_flagfirst : bool }.
 
@@ -256,3 +257,8 @@ Definition check_mt (c : mt_case) : bool :=
   && forallb idle (g_thr st)
   && forallb (fun t => match t_pc t with PCheck => true | _ => false end) (g_thr st)
   && negb (g_tie st).
+
+(* the C18 correspondence mixes the sequential / queue-log cases of M_Messaging with these *)
+Inductive case := COld (c : M_Messaging.case) | CMT (c : mt_case).
+Definition check_case (c : case) : bool :=
+  match c with COld o => M_Messaging.check_case o | CMT m => check_mt m end.
